@@ -168,6 +168,12 @@ let handle (s : sexp) : string = match s with
       let cells = list_of (pair_of q_of) cells and c = list_of q_of c in
       sb (if bool_of mono then check_trig_acc_mono (bool_of usesin) c (q_of s) (q_of tau) cells (q_of eps)
           else check_trig_acc (bool_of usesin) c (q_of s) (q_of tau) cells (q_of eps))
+  | L [A "trigacchi"; mono; usesin; c; s; tau; cells; n; eps] ->
+      let cells = list_of (pair_of q_of) cells and c = list_of q_of c in
+      sb (if bool_of mono then check_trig_acc_hi (bool_of usesin) c (q_of s) (q_of tau) cells (nat_of n) (q_of eps)
+          else check_trig_acc_hi_cheb (bool_of usesin) c (q_of s) (q_of tau) cells (nat_of n) (q_of eps))
+  | L [A "invacchi"; c; s; kappa; cells; k; tol] ->
+      sb (check_inv_acc_hi_cheb (list_of q_of c) (q_of s) (q_of kappa) (list_of (pair_of q_of) cells) (nat_of k) (q_of tol))
   | L [A "invacc"; c; s; kappa; thmax; cells; tol] ->
       sb (check_inv_acc_scaled (list_of q_of c) (q_of s) (q_of kappa) (q_of thmax) (list_of (pair_of q_of) cells) (q_of tol))
   | L [A "infub"; dmin; coefs; s; cells; m2] ->
